@@ -530,6 +530,9 @@ func (in *Interp) mapUpdate(x Value, k, v Value) {
 	if av, ok := v.(*ArrayV); ok {
 		av.cow = true
 	}
+	if a.m.sess != nil {
+		a.m.sess.touchMap(a.m)
+	}
 	if e := in.mapFind(a.m, k); e != nil {
 		e.v = v
 		return
@@ -541,6 +544,9 @@ func (in *Interp) mapDelete(x Value, k Value) {
 	a := x.(*MapV)
 	if a.m == nil {
 		return
+	}
+	if a.m.sess != nil {
+		a.m.sess.touchMap(a.m)
 	}
 	e := in.mapFind(a.m, k)
 	if e == nil {
@@ -639,8 +645,11 @@ func (in *Interp) next(itv Value, ins *ssa.Next) Value {
 		// skip entries deleted during iteration
 		live := false
 		for _, x := range it.m.entries {
-			if x == e {
+			if x == e || x.k == e.k {
 				live = true
+				if x != e {
+					e = x // entry structs are cloned when a shared map is first written on a path
+				}
 				break
 			}
 		}
